@@ -8,6 +8,10 @@ Patches are applied to /repo only for the duration of a check and reverted strai
 import json, os, re, subprocess, sys, time, glob, shlex
 
 VERIF = os.path.dirname(os.path.dirname(os.path.abspath(__file__)))
+# the patched tree the checks are run against: /repo itself, or a scratch worktree of it (EVAL_REPO) so that
+# other runs that read /repo are not disturbed; the checks honour VERIF_REPO
+EVAL_REPO = os.environ.get("EVAL_REPO", "/repo")
+os.environ["VERIF_REPO"] = EVAL_REPO
 
 def save_evidence():
     """the checks rewrite evidence/<id>.json on every run: runs against a patched /repo must not leave theirs behind"""
@@ -81,10 +85,10 @@ def validate(pdir, wt):
 
 def detect(pdir, ids):
     res = {}
-    rc, out = sh("git -C /repo status --porcelain --untracked-files=no")
+    rc, out = sh("git -C %s status --porcelain --untracked-files=no" % EVAL_REPO)
     if out.strip():
         raise SystemExit("/repo has uncommitted changes: refusing to apply a seeded patch")
-    rc, out = sh("git -C /repo apply %s" % os.path.join(pdir, "patch.diff"))
+    rc, out = sh("git -C %s apply %s" % (EVAL_REPO, os.path.join(pdir, "patch.diff")))
     if rc != 0:
         return {"error": "patch does not apply to /repo: " + out[-300:]}
     keep = save_evidence()
@@ -103,7 +107,7 @@ def detect(pdir, ids):
                     except Exception:
                         pass
     finally:
-        sh("git -C /repo checkout -- .")
+        sh("git -C %s checkout -- ." % EVAL_REPO)
         restore_evidence(keep)
     return res
 
@@ -120,7 +124,7 @@ def main():
         root = sys.argv[2]
         only = sys.argv[3:]
         results = {}
-        rpath = os.path.join(VERIF, "seeded", "results.json" if "seed2" not in root else "results2.json")
+        rpath = os.path.join(VERIF, "seeded", "results2.json" if "seed2" in root else "results3.json" if "seed3" in root else "results4.json" if "seed4" in root else "results.json")
         if os.path.exists(rpath):
             results = json.load(open(rpath))
         for od in sorted(glob.glob(os.path.join(root, "out_*"))):
